@@ -148,129 +148,91 @@ theorem serialUntil_shortest (s : St) (term : Bytes) (t : Option Int) :
 
 /-! ## at most n (`read_until_timeout`) -/
 
-theorem readFromSocket_len {s : St} (hk : s.kind ≠ .udp) (size : Nat) {b : Bytes}
-    (h : (readFromSocket s size).2 = .ok b) : b.length ≤ size := by
-  have hdg : (s.kind == Kind.udp) = false := by
-    cases hs : s.kind <;> simp_all
-  have hle := popDev_stream_le size s.dev
-  unfold readFromSocket sockRecv at h
-  rw [hdg] at h
-  generalize popDev false size s.dev = r at *
-  obtain ⟨e, rx, d'⟩ := r
-  cases rx with
-  | data b' =>
-    simp only at h
-    split at h
-    · cases h
-    · simp only [RfOut.ok.injEq] at h
-      subst h
-      exact hle _ rfl
-  | timeout => cases h
-  | eof => cases h
-  | oserr l => cases h
-  | exhausted => cases h
-
-/-- stream socket with `MIN_PACKET_SIZE = 0`: whenever `read` gives up, the buffer holds at most `n` bytes -/
-theorem sockReadLoop_buf_le (n : Nat) (timeout : Option Int) (tstart : Nat) :
-    ∀ (fuel : Nat) (tremain : Option Int) (s : St), s.kind ≠ .udp → s.minP = 0 →
-      ∀ e, (sockReadLoop n timeout tstart fuel tremain s).2 = .exc e →
-        (sockReadLoop n timeout tstart fuel tremain s).1.buf.length ≤ n := by
+/-- `read` reports end of input only while fewer than `n` bytes are buffered (every transport kind) -/
+theorem sockReadLoop_eof_lt (n : Nat) (timeout : Option Int) (tstart : Nat) :
+    ∀ (fuel : Nat) (tremain : Option Int) (s : St),
+      (sockReadLoop n timeout tstart fuel tremain s).2 = .exc .eof →
+        (sockReadLoop n timeout tstart fuel tremain s).1.buf.length < n := by
   intro fuel
   induction fuel with
   | zero =>
-    intro tremain s _ _ e h
-    simp only [sockReadLoop] at h ⊢
-    split at h
-    · simp [takeBuf] at h
-    · rename_i hlt
-      simp only [hlt, if_false]; omega
+    intro tremain s h
+    simp only [sockReadLoop] at h
+    split at h <;> simp [takeBuf] at h
   | succ fuel ih =>
-    intro tremain s hk hm e h
+    intro tremain s h
     simp only [sockReadLoop] at h ⊢
     split at h
     · simp [takeBuf] at h
     · rename_i hlt
       simp only [hlt, if_false] at ⊢
-      have hE := setTimeout_ext s tremain
       have hEb := setTimeout_buf s tremain
       generalize setTimeout s tremain = st at *
       obtain ⟨s0, ok⟩ := st
       cases ok with
-      | false =>
-        have hEb' : s0.buf.length = s.buf.length := congrArg List.length hEb
-        simp only; omega
+      | false => simp at h
       | true =>
         have hEb' : s0.buf.length = s.buf.length := congrArg List.length hEb
         simp only at h ⊢
-        have hk0 : s0.kind ≠ .udp := by rw [hE.same.kind]; exact hk
         have hR := readFromSocket_spec s0 (max (n - s.buf.length) s.minP)
-        have hlen := @readFromSocket_len s0 hk0 (max (n - s.buf.length) s.minP)
         generalize readFromSocket s0 (max (n - s.buf.length) s.minP) = rr at *
         obtain ⟨s1, ro⟩ := rr
-        obtain ⟨hS, hB, _⟩ := hR
+        obtain ⟨_, hB, _⟩ := hR
         have hB' : s1.buf.length = s.buf.length := (congrArg List.length hB).trans hEb'
         cases ro with
-        | timeout => simp only; omega
+        | timeout => simp at h
+        | exhausted => simp at h
+        | runtime => simp at h
         | eof => simp only; omega
-        | exhausted => simp only; omega
-        | runtime => simp only; omega
         | ok b =>
-          have hb : b.length ≤ max (n - s.buf.length) s.minP := hlen rfl
           simp only at h ⊢
-          have hk2 : ({ s1 with buf := s1.buf ++ b } : St).kind ≠ .udp := by
-            show s1.kind ≠ .udp
-            rw [hS.kind]; exact hk0
-          have hm2 : ({ s1 with buf := s1.buf ++ b } : St).minP = 0 := by
-            show s1.minP = 0
-            rw [hS.minP, hE.same.minP]; exact hm
           cases timeout with
-          | none => exact ih _ _ hk2 hm2 e h
+          | none => exact ih _ _ h
           | some t =>
             simp only at h ⊢
             split
-            · simp only [List.length_append]; rw [hm] at hb; omega
-            · rename_i hnot
-              simp only [hnot, if_false] at h
-              exact ih _ _ hk2 hm2 e h
+            · rename_i hneg; simp [hneg] at h
+            · rename_i hneg
+              simp only [hneg, if_false] at h
+              exact ih _ _ h
 
-theorem sockRut_le (s : St) (n : Nat) (t : Option Int) (hk : s.kind ≠ .udp) (hm : s.minP = 0) :
+/-- socket `read_until_timeout`, every kind and every packet-size constant: at most `n` bytes -/
+theorem sockRut_le (s : St) (n : Nat) (t : Option Int) :
     RetOK (fun bs => bs.length ≤ n) (sockRut s n t) := by
   have hlen := sockRead_len s n t
-  have hbuf : ∀ e, (sockRead s n t).2 = .exc e → s.isOpen = true → (sockRead s n t).1.buf.length ≤ n := by
-    intro e he ho
-    simp only [sockRead, ho, Bool.not_true, Bool.false_eq_true, if_false] at he ⊢
-    exact sockReadLoop_buf_le _ _ _ _ _ _ hk hm e he
-  have hclosed : s.isOpen = false → sockRead s n t = (s, .exc .invalidOp) := by
-    intro ho; simp [sockRead, ho]
+  have heof : (sockRead s n t).2 = .exc .eof → (sockRead s n t).1.buf.length < n := by
+    intro he
+    simp only [sockRead] at he ⊢
+    split at he
+    · simp at he
+    · rename_i ho
+      simp only [ho]
+      exact sockReadLoop_eof_lt _ _ _ _ _ _ he
   simp only [sockRut]
-  cases ho : s.isOpen with
-  | false =>
-    rw [hclosed ho]
-    exact retOK_exc _ _ _
-  | true =>
-    generalize sockRead s n t = r at *
-    obtain ⟨s1, o⟩ := r
-    cases o with
-    | unit => intro bs h; cases h
-    | ret bs =>
-      intro bs' h
-      have := hlen bs' h
-      simp only at this; omega
-    | exc e =>
-      have hb := hbuf e rfl ho
-      cases e with
-      | timeout =>
-        intro bs h
+  generalize sockRead s n t = r at *
+  obtain ⟨s1, o⟩ := r
+  cases o with
+  | unit => intro bs h; cases h
+  | ret bs =>
+    intro bs' h
+    have := hlen bs' h
+    simp only at this; omega
+  | exc e =>
+    cases e with
+    | timeout =>
+      intro bs h
+      simp only [takeBuf, Out.ret.injEq] at h
+      subst h
+      simp only [List.length_take]; omega
+    | eof =>
+      have hb := heof rfl
+      simp only
+      split
+      · exact retOK_exc _ _ _
+      · intro bs h
         simp only [takeAll, Out.ret.injEq] at h
-        subst h; exact hb
-      | eof =>
-        simp only
-        split
-        · exact retOK_exc _ _ _
-        · intro bs h
-          simp only [takeAll, Out.ret.injEq] at h
-          subst h; exact hb
-      | _ => exact retOK_exc _ _ _
+        subst h; simp only at hb; omega
+    | _ => exact retOK_exc _ _ _
 
 theorem serReadFinish_timeout_lt {s s1 : St} {n : Nat} (h : serReadFinish s n = (s1, .exc .timeout)) :
     s1.buf.length < n := by
